@@ -93,6 +93,11 @@ Muts(b) ==
   \* declared COUNTS: the index map header and the responses array header replaced by boundary values
   \cup { [kind |-> "idxcount", i |-> 0, j |-> 0, v |-> v] : v \in Counts(Len(Urls(b.exs))) }
   \cup { [kind |-> "respcount", i |-> 0, j |-> 0, v |-> v] : v \in Counts(Len(b.exs)) }
+  \* pair: the number of index entries AND the declared length of the responses section replaced together (a reader that
+  \* bounds what it prepares for one declared value by ANOTHER declared value has bounded it by nothing); j = 1: the file
+  \* also ends right behind the index head
+  \cup { [kind |-> "cntlen", i |-> 0, j |-> j, v |-> v] : j \in {0, 1},
+         v \in { <<0,0,0,0,0,16,0,0>>, <<0,0,0,0,8,0,0,0>>, <<0,0,0,1,0,0,0,0>>, <<64,0,0,0,0,0,0,0>>, <<127,255,255,255,255,255,255,255>>, <<255,255,255,255,255,255,255,255>> } }
   \* the same for the section-lengths byte string itself (its byte-string head adjusted)
   \cup { [kind |-> "sltrunc", i |-> 0, j |-> k, v |-> U64Zero] : k \in 1..3 }
 
@@ -145,6 +150,11 @@ Apply(b, m) ==
          LET ix0 == bd[1]
              ix == EncHead(5, m.v) \o SubSeq(ix0, Len(EncMapHdr(Len(Urls(b.exs)))) + 1, Len(ix0))
          IN Build(b, [t EXCEPT ![1].len = U64(Len(ix))], 2 * n, n, [bd EXCEPT ![1] = ix])
+    [] m.kind = "cntlen" ->
+         LET ix0 == bd[1]
+             ix == EncHead(5, m.v) \o (IF m.j = 1 THEN <<>> ELSE SubSeq(ix0, Len(EncMapHdr(Len(Urls(b.exs)))) + 1, Len(ix0)))
+             f == Build(b, [t EXCEPT ![1].len = U64(Len(ix)), ![n].len = m.v], 2 * n, n, [bd EXCEPT ![1] = ix])
+         IN IF m.j = 1 THEN SubSeq(f, 1, Len(f) - Len(Concat(SubSeq(bd, 2, n))) - 9) ELSE f
     [] m.kind = "respcount" ->
          LET r0 == bd[n]
              r == EncHead(4, m.v) \o SubSeq(r0, Len(EncArrayHdr(Len(b.exs))) + 1, Len(r0))
@@ -171,6 +181,7 @@ OutOfBoundsRefused ==
   /\ mut.kind \in {"idxwrap", "idxwrap2", "dupname", "unknownlast", "manyaxes"} => (X.res = "err" \/ (mut.kind = "dupname" /\ mut.i = mut.j))
   /\ (mut.kind = "seclen" /\ ~IsSmall(mut.v)) => X.res = "err"
   /\ (mut.kind \in {"idxoff", "idxlen"} /\ ~IsSmall(mut.v)) => X.res = "err"
+  /\ mut.kind = "cntlen" => X.res = "err"
 \* whatever is extracted comes from the file: never more exchanges than index locations, never content of another base
 Bounded == X.res = "ok" => \A i \in 1..Len(X.exs) : Len(X.exs[i].body) <= Len(file)
 =============================================================================
